@@ -256,8 +256,9 @@ class Attr:
 # ----------------------------------------------------------------------------------------------------
 # type definitions
 # ----------------------------------------------------------------------------------------------------
-FIELD_RUST = {"probe": "Probe", "refu8": "&'static u8", "usize": "usize"}
-FIELD_VALUE = {"probe": "any_probe()", "refu8": "if kani::any() { &B0 } else { &B1 }", "usize": "any_count()"}
+# "A" / "B": a type parameter of a generic type definition (instantiated with Probe by the `pub type T = TG<Probe, ..>` alias)
+FIELD_RUST = {"probe": "Probe", "refu8": "&'static u8", "usize": "usize", "A": "A", "B": "B"}
+FIELD_VALUE = {"probe": "any_probe()", "refu8": "if kani::any() { &B0 } else { &B1 }", "usize": "any_count()", "A": "any_probe()", "B": "any_probe()"}
 
 
 class Field:
@@ -317,8 +318,11 @@ class Variant:
 class TypeDef:
     """struct (variants == [the body], is_enum False) or enum"""
 
-    def __init__(self, derive, variants, is_enum=False, shared=None, rename_all=None, name="T", extra=()):
+    def __init__(self, derive, variants, is_enum=False, shared=None, rename_all=None, name="T", extra=(), generics=None):
         self.derive = derive                    # trait name
+        # generics: None or (decl, instantiation), e.g. ("<A, B>", "<Probe, Probe>"): the type is declared as `TG<A, B>` and everything
+        # else (reference, harnesses) uses the alias `pub type T = TG<Probe, Probe>;`
+        self.generics = generics
         self.extra = list(extra)                # see Variant.extra (container level)
         self.variants = variants if isinstance(variants, list) else [variants]
         self.is_enum = is_enum
@@ -342,7 +346,7 @@ class TypeDef:
         lines = ["#[derive(derive_more::%s)]" % self.derive]
         if self.is_enum:
             lines += self.attr_lines(self.shared, self.rename_all, extra=self.extra)
-            lines.append("pub enum %s {" % self.name)
+            lines.append("pub enum %s {" % self.decl_name())
             for v in self.variants:
                 lines += self.attr_lines(v.attr, v.rename_all, "    ", extra=v.extra)
                 lines.append("    %s%s," % (v.name, v.body()))
@@ -350,8 +354,13 @@ class TypeDef:
         else:
             v = self.variants[0]
             lines += self.attr_lines(v.attr, self.rename_all or v.rename_all, extra=self.extra + v.extra)
-            lines.append("pub struct %s%s%s" % (self.name, v.body("pub "), "" if v.kind == "named" else ";"))
+            lines.append("pub struct %s%s%s" % (self.decl_name(), v.body("pub "), "" if v.kind == "named" else ";"))
+        if self.generics:
+            lines.append("pub type %s = %sG%s;" % (self.name, self.name, self.generics[1]))
         return "\n".join(lines)
+
+    def decl_name(self):
+        return self.name + "G" + self.generics[0] if self.generics else self.name
 
     def title(self):
         return re.sub(r"\s+", " ", self.decl().replace("derive_more::", "").replace("pub ", ""))
